@@ -37,6 +37,7 @@ type c34Case struct {
 	I    int    `json:"i"`
 	Req  c34Req `json:"req"`
 	Seed int64  `json:"seed"`
+	V    int    `json:"v"` // >= 0: which concrete variant materialises a FALSE structure fact (-1 = seeded choice)
 }
 
 var c34SFields = []string{"wit", "signersMatch", "alphaSigner", "attrsOK", "proxyEmpty", "alphaVerif", "invokerWit",
@@ -55,8 +56,9 @@ func c34gen(out string) {
 	r := kit.Rand(34)
 	w := kit.NewW(out)
 	n := 0
+	variant := -1
 	emit := func(s map[string]bool, plain bool, calls ...c34Call) {
-		w.Emit(c34Case{I: n, Req: c34Req{S: s, Plain: plain, Calls: calls}, Seed: r.Int63()})
+		w.Emit(c34Case{I: n, Req: c34Req{S: s, Plain: plain, Calls: calls}, Seed: r.Int63(), V: variant})
 		n++
 	}
 	good := func(t string) c34Call { return c34Call{t, true, true} }
@@ -73,10 +75,13 @@ func c34gen(out string) {
 	for _, cs := range few {
 		emit(goodS(), true, cs...)
 		for _, f := range c34SFields {
-			s := goodS()
-			s[f] = false
-			emit(s, true, cs...)
+			for variant = 0; variant < 4; variant++ { // every concrete way of breaking the fact
+				s := goodS()
+				s[f] = false
+				emit(s, true, cs...)
+			}
 		}
+		variant = -1
 	}
 	// 2. scripts: every single call; every second call after the interesting first calls
 	for _, c := range allCalls {
@@ -192,12 +197,15 @@ func c34run(casesPath, out string) {
 		}
 		nr, err := req.Capture(func() error { return sc.RunScriptForAlphabet(ctx, script) })
 		kit.Must(err)
-		mutateStructure(r, nr, q.S, n.Key.PublicKey().GetScriptHash(), otherMultisig)
+		mutateStructure(r, cs.V, nr, q.S, n.Key.PublicKey().GetScriptHash(), otherMultisig)
 		height := uint32(100)
 		if !q.S["fbFresh"] {
 			for _, a := range nr.FallbackTransaction.GetAttributes(transaction.NotValidBeforeT) {
 				if nvb, ok := a.Value.(*transaction.NotValidBefore); ok {
 					height = nvb.Height + uint32(r.Intn(2))
+					if cs.V >= 0 {
+						height = nvb.Height + uint32(cs.V%2)
+					}
 				}
 			}
 		}
@@ -229,13 +237,19 @@ func c34run(casesPath, out string) {
 }
 
 // mutateStructure damages the well-formed request according to the FALSE structure facts.
-func mutateStructure(r *rand.Rand, nr *payload.P2PNotaryRequest, s map[string]bool, local util.Uint160, otherMultisig []byte) {
+func mutateStructure(r *rand.Rand, v int, nr *payload.P2PNotaryRequest, s map[string]bool, local util.Uint160, otherMultisig []byte) {
 	tx, fb := nr.MainTransaction, nr.FallbackTransaction
+	pick := func(n int) int {
+		if v >= 0 {
+			return v % n
+		}
+		return r.Intn(n)
+	}
 	if !s["alphaSigner"] {
 		tx.Signers[1].Account = fix.Hash160("not-alphabet")
 	}
 	if !s["attrsOK"] {
-		switch r.Intn(4) {
+		switch pick(4) {
 		case 0:
 			tx.Attributes = nil
 		case 1:
@@ -251,7 +265,7 @@ func mutateStructure(r *rand.Rand, nr *payload.P2PNotaryRequest, s map[string]bo
 	}
 	if !s["alphaVerif"] {
 		tx.Scripts[1].VerificationScript = otherMultisig
-		if r.Intn(2) == 0 { // consistent signer for the other multisig: then the signer check fails first
+		if pick(2) == 0 { // consistent signer for the other multisig: then the signer check fails first
 			_ = hash.Hash160
 		}
 	}
@@ -260,7 +274,7 @@ func mutateStructure(r *rand.Rand, nr *payload.P2PNotaryRequest, s map[string]bo
 	}
 	if !s["placeholder"] {
 		last := len(tx.Scripts) - 1
-		if r.Intn(2) == 0 {
+		if pick(2) == 0 {
 			tx.Scripts[last].VerificationScript = []byte{byte(opcode.PUSH1)}
 		} else {
 			g := make([]byte, 66)
@@ -269,7 +283,7 @@ func mutateStructure(r *rand.Rand, nr *payload.P2PNotaryRequest, s map[string]bo
 		}
 	}
 	if !s["fbAttrs"] {
-		if r.Intn(2) == 0 {
+		if pick(2) == 0 {
 			fb.Attributes = fb.Attributes[:2]
 		} else {
 			for i := range fb.Attributes {
@@ -283,7 +297,7 @@ func mutateStructure(r *rand.Rand, nr *payload.P2PNotaryRequest, s map[string]bo
 		fb.Signers[1].Account = local
 	}
 	if !s["wit"] {
-		if r.Intn(2) == 0 { // two witnesses / signers
+		if pick(2) == 0 { // two witnesses / signers
 			tx.Scripts = tx.Scripts[:2]
 			tx.Signers = tx.Signers[:2]
 		} else { // five
